@@ -476,7 +476,7 @@ func oracleTables(b []byte) (ftab, itab string) {
 
 // ---- generation --------------------------------------------------------------------------------------
 
-var strPool = []string{"a", "b", "res c", "GET:/api/v1/users/{id}", "x.y-z_0", "", "q#1", "it's", "[1,2]", "{k:v}", "e123x", "UPPER lower", "  padded  ", "null", "true", "1e5"}
+var strPool = []string{"a", "b", "res c", "GET:/api/v1/users/{id}", "x.y-z_0", "", "q#1", "it's", "[1,2]", "{k:v}", "e12x", "UPPER lower", "  padded  ", "null", "true", "1e5"}
 var litPool = []string{"0", "1", "10", "2.5", "1e3", "-1", "100", "0.5", "0.1", "-0.5E-2", "123456789.125", "1e-7", "5e-324",
 	"1.7976931348623157e308", "-0", "0.000", "1E5", "12345678901234567890", "0.30000000000000004", "3.141592653589793", "1e21", "1e-7", "99.99"}
 
@@ -563,11 +563,56 @@ func genWrule(r *rng.R, mod, idx int) wrule {
 	return out
 }
 
-func genWrules(r *rng.R, mod int) []wrule {
+// genRealistic: values the rule managers can load cheaply (enumerations within or just outside
+// the supported sets, modest intervals and capacities) — the domain of the handler-level check
+func genRealistic(r *rng.R, mod, idx int) wrule {
+	z := func(vs ...int64) wval { return wval{I: big.NewInt(vs[r.Intn(len(vs))])} }
+	s := func(vs ...string) wval { return wval{S: vs[r.Intn(len(vs))]} }
+	lit := func(vs ...string) wval { return wval{Lit: vs[r.Intn(len(vs))]} }
+	res := strPool[r.Intn(len(strPool))]
+	if res != "" {
+		res = fmt.Sprintf("%s/%d", res, idx)
+	}
+	id := wval{S: pickS(r, "", fmt.Sprintf("r%d", idx))}
+	switch mod {
+	case 0:
+		st := z(0, 0, 0, 1, 2, -1)
+		out := wrule{id, {S: res}, st, z(0, 0, 1, -1), lit("0", "1", "10", "2.5", "1e3", "-1", "100"), z(0, 0, 1, 2), s("", "ref", "ref"),
+			z(0, 500), z(0, 10, 10), z(0, 3, 2, 1), z(0, 1000, 2000, 500), z(0), z(0), z(0), z(0)}
+		if st.I.Int64() == 2 {
+			if r.Chance(3, 4) {
+				out[11], out[12], out[13], out[14] = z(1000), z(100), z(1000000), z(2000000)
+			} else {
+				out[11], out[12] = z(100), z(1000)
+			}
+		}
+		return out
+	case 1:
+		return wrule{id, z(0, 1, 2, 3, 4, 4, 5, 7), lit("0.5", "1", "10", "0", "-1", "2.25"), z(-1, 0, 1)}
+	case 2:
+		return wrule{id, {S: res}, z(0, 1, 2, 2), z(1000, 1000, 3000, 0), z(0, 5), z(1000, 1000, 10000, 0), z(0, 1, 10, 3),
+			z(0, 50), lit("0.5", "0.5", "5", "1", "-1", "1.5"), z(0, 1)}
+	case 3:
+		items := wval{}
+		if r.Chance(2, 3) {
+			items = wval{Items: genItems(r)}
+		}
+		return wrule{id, {S: res}, z(0, 1, 1, -1), z(0, 0, 1, -1), z(0, 1, -1), s("", "", "uid"), z(0, 5, 5, 100, -1), z(0, 20, -1),
+			z(0, 3, -1), z(1, 1, 2, 0), z(0, 100), items}
+	default:
+		return wrule{id, {S: res}, z(0, 0, 1), z(1, 5, 5, 0, 4294967295)}
+	}
+}
+
+func genWrules(r *rng.R, mod int, realistic bool) []wrule {
 	n := r.Intn(4)
 	var out []wrule
 	for i := 0; i < n; i++ {
-		out = append(out, genWrule(r, mod, i))
+		if realistic {
+			out = append(out, genRealistic(r, mod, i))
+		} else {
+			out = append(out, genWrule(r, mod, i))
+		}
 	}
 	return out
 }
@@ -748,17 +793,19 @@ type wcase struct {
 	Expect  string  `json:"expect"` // rules | err | nil | nilslice | unknown
 	Rules   []wrule `json:"described,omitempty"`
 	Nils    []int   `json:"nil_elements_at,omitempty"` // positions (in the final list) of null elements
+	Real    bool    `json:"loadable_values,omitempty"`  // values from the rule managers' cheap domain: also delivered to a real handler
 	encOf   bool
 }
 
 func genWire(r *rng.R, id int) wcase {
 	mod := r.Intn(5)
 	c := wcase{ID: id, Mod: mod, Module: []string{"flow", "system", "circuitbreaker", "hotspot", "isolation"}[mod]}
-	rs := genWrules(r, mod)
+	c.Real = r.Chance(1, 2)
+	rs := genWrules(r, mod, c.Real)
 	switch k := r.Intn(10); {
 	case k < 2: // A
 		c.Stream, c.Expect, c.Rules = "A-go-marshal", "rules", rs
-		var elems []interface{}
+		elems := []interface{}{}
 		for i, x := range rs {
 			if r.Chance(1, 8) {
 				c.Nils = append(c.Nils, len(elems))
@@ -807,7 +854,11 @@ func genMalformed(r *rng.R, c *wcase, rs []wrule) {
 	mod := c.Mod
 	c.Stream = "D-malformed"
 	if len(rs) == 0 {
-		rs = []wrule{genWrule(r, mod, 0)}
+		if c.Real {
+			rs = []wrule{genRealistic(r, mod, 0)}
+		} else {
+			rs = []wrule{genWrule(r, mod, 0)}
+		}
 	}
 	base := modelEncode(mod, rs)
 	sch := wireSchemas[mod]
@@ -1199,8 +1250,9 @@ func runWire(a cli.Args, root *rng.R, rep *emit.Report, sh *emit.Shards, only in
 		o, _ := observeWire(m, c.Mod, []byte(c.Payload))
 		rep.Evaluations++
 		monitorWire(c, m, o, rep)
-		if c.Expect == "rules" {
+		if c.Expect == "rules" && c.Real {
 			monitorApplied(c, m, rep)
+			rep.Count("wire_delivered_to_real_handler", 1)
 		}
 		rep.Count("wire_stream_"+c.Stream, 1)
 		rep.Count("wire_module_"+c.Module, 1)
